@@ -1,1 +1,42 @@
-(* C17 *)
+(* C17 — stream object lifecycle: the Writer / Reader state machine models (compared with the Go
+   objects on random call programs at every run) satisfy the lifecycle rules for every state. *)
+From Coq Require Import List NArith.
+From KV Require Import Model.Writer Model.Reader Proofs.WriterProofs Proofs.ReaderProofs.
+Import ListNotations.
+Open Scope N_scope.
+
+(* successful Writes return their full length, Close succeeds, a writer closed without data emits no block *)
+Theorem C17_writes_return_full_length_and_close_succeeds : forall B jobs hint (ws : list (list N)), 0 < B -> 0 < jobs ->
+  exists s1 s2, do_writes B jobs hint (init_w jobs) ws = (s1, true) /\
+    w_close B jobs hint (fun _ => false) s1 false false = (s2, false) /\ w_closed s2 = true /\
+    map snd (w_out s2) = chunks B (concat ws).
+Proof.
+  intros B jobs hint ws HB HJ. destruct (writer_chunking B jobs hint HB HJ ws) as (s1 & s2 & E1 & E2 & C & O & _).
+  exists s1, s2. auto.
+Qed.
+Print Assumptions C17_writes_return_full_length_and_close_succeeds.
+
+Theorem C17_writer_use_after_close : forall B jobs hint fails s blk mf ff, w_closed s = true ->
+  w_write B jobs hint fails s blk = (s, 0, true) /\ w_close B jobs hint fails s mf ff = (s, false).
+Proof. intros. split; [apply write_after_close|apply close_after_close]; assumption. Qed.
+Print Assumptions C17_writer_use_after_close.
+
+Theorem C17_reader_use_after_close : forall B jobs hint from to s n,
+  r_read B jobs hint from to (close_r s) n = (close_r s, [], RErr) /\ close_r (close_r s) = close_r s.
+Proof.
+  intros. split; [|apply close_r_idempotent]. apply read_after_close. unfold close_r. destruct (r_closed s) eqn:E; [exact E|reflexivity].
+Qed.
+Print Assumptions C17_reader_use_after_close.
+
+(* a writer closed without any Write yields a stream that reads back empty: (0, EOF) *)
+Theorem C17_empty_stream : forall B jobs hint jr hr n, 0 < B -> 0 < jobs -> 0 < jr -> 0 < n ->
+  exists s1 s2, do_writes B jobs hint (init_w jobs) [] = (s1, true) /\
+    w_close B jobs hint (fun _ => false) s1 false false = (s2, false) /\
+    fst (do_reads B jr hr (init_r (map FData (map snd (w_out s2)) ++ [FEnd])) [n]) = [([], REOF)].
+Proof.
+  intros B jobs hint jr hr n HB HJ HR Hn.
+  destruct (stream_roundtrip_model B HB jobs hint jr hr [] [n] HJ HR) as (s1 & s2 & E1 & E2 & R).
+  exists s1, s2. split; [exact E1|]. split; [exact E2|]. rewrite R. cbn [concat spec_reads].
+  rewrite firstn_nil. unfold eof_result. rewrite N.eqb_refl. replace (0 <? n) with true by (symmetry; apply N.ltb_lt; exact Hn). reflexivity.
+Qed.
+Print Assumptions C17_empty_stream.
